@@ -31,7 +31,7 @@ def run_history(arrivals, total, poll, ping_rate, ping_timeout, close_timeout, c
             if ev.name == 'ready':
                 state['t0'] = clock.t
             times.append((ev.name, clock.t - state.get('t0', clock.t)))
-            if close_at is not None and not state.get('closed') and ev.name == 'poll' and clock.t - state['t0'] >= close_at:
+            if close_at is not None and 'closed' not in state and ev.name == 'poll' and clock.t - state['t0'] >= close_at:
                 ws.close()
                 state['closed'] = clock.t - state['t0']
         run = harness.drive(reads=reads, react=react, connect_kwargs=dict(poll=poll, ping_rate=ping_rate, ping_timeout=ping_timeout, close_timeout=close_timeout), clock=clock)
@@ -104,9 +104,9 @@ def replay(obligation, extra):
     if any(n == 'unresponsive' for n, _ in times):
         return dict(found=True, input='ping_timeout=None', expected='never Unresponsive', observed='Unresponsive')
     # close timeout
-    for c in (3, 0, None):
+    for c, close_at in ((3, 2), (0, 2), (None, 2), (3, 0), (2.5, 0)):      # close_at=0: Close sent at session time exactly 0.0
         tried += 1
-        run, times, state = run_history([], 15, 1, 0, None, c, close_at=2)
+        run, times, state = run_history([], 15, 1, 0, None, c, close_at=close_at)
         end = [t for nme, t in times if nme == 'disconnected']
         sent = state.get('closed')
         if c:
